@@ -24,13 +24,14 @@ type profile struct {
 	gatedBias int // percent of cases that switch to gated mode after warm-up
 	tpl      map[string]int // template name -> percent of cases that run it after warm-up
 	lateBoot int            // percent of cases in which some initial voters start empty
+	autoSnap int            // percent of cases with SnapshotInterval > 0
 }
 
 var baseWeights = map[string]int{
 	"adv": 10, "settle": 6, "dlv": 8, "dlvto": 4, "dlvfrom": 3, "dlvamong": 4,
 	"poke": 6, "elect": 5, "sever": 3, "severpair": 2, "cut": 2, "uncut": 1, "isolate": 2, "heal": 3,
 	"upd": 10, "read": 1, "dread": 1, "barrier": 1,
-	"snap": 2, "xfer": 1, "cfg": 2,
+	"snap": 2, "xfer": 1, "cfg": 2, "waitstable": 1,
 	"crash": 2, "stop": 1, "restart": 4, "gate": 1, "free": 1,
 	"hold": 0, "unhold": 6, "heldsnap": 0,
 }
@@ -53,19 +54,19 @@ var profiles = map[string]*profile{
 		tpl: map[string]int{"crashpoint": 10, "lagsnap": 10, "divergesnap": 15, "figure8": 30}, w: weights(map[string]int{"upd": 16, "dlvamong": 10, "elect": 8, "poke": 6, "crash": 4, "restart": 6, "snap": 2, "cfg": 2})},
 	"member": {name: "member", lateBoot: 10, minNodes: 1, maxNodes: 5, extras: 3, warmUpd: 6, steps: [2]int{10, 50}, gatedBias: 50, padMax: 40,
 		tpl: map[string]int{"staletimeoutnow": 12, "cfgrevert": 40}, w: weights(map[string]int{"cfg": 16, "upd": 8, "elect": 6, "poke": 6, "xfer": 2, "crash": 3, "restart": 5, "adv": 12})},
-	"snap": {name: "snap", minNodes: 1, maxNodes: 4, extras: 1, warmUpd: 40, steps: [2]int{10, 40}, gatedBias: 40, padMax: 200,
+	"snap": {name: "snap", autoSnap: 25, minNodes: 1, maxNodes: 4, extras: 1, warmUpd: 40, steps: [2]int{10, 40}, gatedBias: 40, padMax: 200,
 		tpl: map[string]int{"lagsnap": 30, "staleinstall": 10, "divergesnap": 20}, w: weights(map[string]int{"heldsnap": 5, "hold": 3, "snap": 12, "upd": 16, "restart": 6, "crash": 3, "stop": 3, "isolate": 4, "heal": 5, "cfg": 3, "adv": 12})},
-	"crash": {name: "crash", minNodes: 1, maxNodes: 4, extras: 1, warmUpd: 20, steps: [2]int{10, 40}, gatedBias: 40, padMax: 120,
+	"crash": {name: "crash", autoSnap: 15, minNodes: 1, maxNodes: 4, extras: 1, warmUpd: 20, steps: [2]int{10, 40}, gatedBias: 40, padMax: 120,
 		tpl: map[string]int{"crashpoint": 60, "lagsnap": 10}, w: weights(map[string]int{"crash": 14, "restart": 12, "upd": 14, "snap": 6, "cfg": 3, "adv": 12, "elect": 5})},
 	"client": {name: "client", minNodes: 1, maxNodes: 5, extras: 1, warmUpd: 10, steps: [2]int{10, 50}, gatedBias: 25, padMax: 60,
 		tpl: map[string]int{"lagsnap": 10, "divergesnap": 10}, w: weights(map[string]int{"upd": 20, "read": 8, "dread": 6, "barrier": 5, "xfer": 3, "cfg": 3, "elect": 5, "poke": 5, "isolate": 4, "heal": 4, "crash": 3, "restart": 5, "adv": 14})},
 	"transfer": {name: "transfer", minNodes: 2, maxNodes: 5, extras: 1, warmUpd: 6, steps: [2]int{8, 40}, gatedBias: 60, padMax: 40,
 		tpl: map[string]int{"staletimeoutnow": 15, "cfgrevert": 25}, w: weights(map[string]int{"xfer": 16, "upd": 10, "cfg": 4, "poke": 8, "elect": 5, "dlv": 12, "sever": 5, "adv": 10})},
-	"chaos": {name: "chaos", lateBoot: 10, minNodes: 1, maxNodes: 5, extras: 2, warmUpd: 30, steps: [2]int{15, 60}, gatedBias: 10, padMax: 200, closing: true,
+	"chaos": {name: "chaos", autoSnap: 25, lateBoot: 10, minNodes: 1, maxNodes: 5, extras: 2, warmUpd: 30, steps: [2]int{15, 60}, gatedBias: 10, padMax: 200, closing: true,
 		tpl: map[string]int{"lagsnap": 25, "crashpoint": 10, "staleinstall": 5, "divergesnap": 10, "staletimeoutnow": 4}, w: weights(map[string]int{"heldsnap": 2, "hold": 2, "upd": 16, "snap": 6, "cfg": 6, "xfer": 4, "crash": 4, "stop": 3, "restart": 8, "isolate": 4, "heal": 5, "adv": 16, "read": 3, "dread": 2, "barrier": 2})},
-	"snapmember": {name: "snapmember", minNodes: 2, maxNodes: 4, extras: 2, warmUpd: 12, steps: [2]int{10, 40}, gatedBias: 20, padMax: 60,
+	"snapmember": {name: "snapmember", autoSnap: 20, minNodes: 2, maxNodes: 4, extras: 2, warmUpd: 12, steps: [2]int{10, 40}, gatedBias: 20, padMax: 60,
 		tpl: map[string]int{"lagsnap": 30}, w: weights(map[string]int{"heldsnap": 12, "unhold": 10, "snap": 6, "cfg": 14, "upd": 12, "adv": 14, "restart": 6, "stop": 3, "crash": 2, "isolate": 2, "heal": 4})},
-	"info": {name: "info", minNodes: 2, maxNodes: 5, extras: 1, warmUpd: 20, steps: [2]int{10, 50}, gatedBias: 50, padMax: 120,
+	"info": {name: "info", autoSnap: 15, minNodes: 2, maxNodes: 5, extras: 1, warmUpd: 20, steps: [2]int{10, 50}, gatedBias: 50, padMax: 120,
 		tpl: map[string]int{"lagsnap": 25, "staleinstall": 25, "cfgrevert": 40}, w: weights(map[string]int{"snap": 8, "upd": 14, "isolate": 4, "heal": 4, "elect": 6, "crash": 3, "restart": 6, "cfg": 3})},
 }
 
@@ -135,6 +136,7 @@ func (c *cluster) genAction(rt *rapid.T, p *profile) vAct {
 	add("read", len(up) > 0)
 	add("dread", len(up) > 0)
 	add("barrier", len(up) > 0)
+	add("waitstable", len(up) > 0)
 	add("snap", len(up) > 0)
 	add("xfer", len(up) > 0)
 	add("cfg", len(up) > 0)
@@ -207,6 +209,8 @@ func (c *cluster) genAction(rt *rapid.T, p *profile) vAct {
 		return vAct{A: "heal"}
 	case "upd":
 		return vAct{A: "upd", N: preferLeader("n"), K: rapid.IntRange(1, 12).Draw(rt, "k"), T: int64(rapid.IntRange(0, p.padMax).Draw(rt, "pad"))}
+	case "waitstable":
+		return vAct{A: "waitstable", N: preferLeader("n")}
 	case "read", "dread", "barrier":
 		if kind == "dread" {
 			return vAct{A: kind, N: pickU64(rt, "n", up)}
@@ -260,7 +264,12 @@ func (c *cluster) genAction(rt *rapid.T, p *profile) vAct {
 	return vAct{A: "nop"}
 }
 
-var cfgEdits = []string{"addnv", "addpromote", "promote", "demote", "remove", "forceremove", "multi", "none"}
+// the last five are requests the leader has to refuse (voting right changed
+// directly, new node as voter, node dropped without action, every voter given a
+// leaving action, configuration older than the current one)
+var cfgEdits = []string{"addnv", "addpromote", "promote", "demote", "remove", "forceremove", "multi", "none",
+	"addnv", "promote", "demote", "remove", "multi", // (valid ones weighted up)
+	"flipvoter", "addvoter", "dropnode", "allleave", "older"}
 
 func (c *cluster) genCfg(rt *rapid.T, target uint64) vAct {
 	n := c.up(target)
@@ -287,6 +296,14 @@ func (c *cluster) genCfg(rt *rapid.T, target uint64) vAct {
 		}
 	}
 	switch a.S {
+	case "addvoter":
+		if len(others) == 0 {
+			a.S = "flipvoter"
+			a.M = pickU64(rt, "m", c.order)
+		} else {
+			a.M = pickU64(rt, "m", others)
+		}
+	case "allleave", "older":
 	case "addnv", "addpromote":
 		if len(others) > 0 && rapid.IntRange(0, 9).Draw(rt, "valid") < 9 {
 			a.M = pickU64(rt, "m", others)
